@@ -349,6 +349,11 @@ func inferFunc(pkg *Package, fn *internal.Elem, sig *types.Signature, targs []ty
 	if err != nil {
 		return nil, nil, err
 	}
+	for i, arg := range args {
+		if arg.Type == nil { // e.g. the result of a call that returns nothing
+			return nil, nil, fmt.Errorf("argument %d in call to %s has no value", i+1, exprString(fn.Val))
+		}
+	}
 	tp := sig.TypeParams()
 	n := tp.Len()
 	tparams := make([]*types.TypeParam, n)
